@@ -39,13 +39,14 @@
 (*  MutNoCatch     the ShutdownError of the synchronous confirmation query *)
 (*      of a stuck path escapes run_test: panic(sat_valid), stuck with     *)
 (*      --early-exit gives FAIL or EXCEPTION(5) depending on the order     *)
-(* On the faithful model (both FALSE) VerdictIsPrecedence,                 *)
-(* OrderIndependence and NoLostCounterexampleStrict hold, under            *)
-(* KilledMayRaise = FALSE.  KilledMayRaise = TRUE adds the one residual    *)
-(* behaviour of the code that is not forced by the harness: a confirmation *)
-(* query IN FLIGHT when the early-exit shutdown cancels it may surface as  *)
-(* an OSError (EBADF) out of future.result(), which is not a ShutdownError *)
-(* and still escapes run_test (MC_Verdict_r_killedraise.cfg exhibits it).  *)
+(*  MutKilledEscapes (before e7511fd) a confirmation query IN FLIGHT when   *)
+(*      the early-exit shutdown cancels it may end with an OSError (EBADF)  *)
+(*      out of future.result(); only ShutdownError was caught, so it       *)
+(*      escaped run_test: EXCEPTION(5) instead of FAIL                     *)
+(* On the faithful model (all FALSE) VerdictIsPrecedence,                  *)
+(* OrderIndependence and NoLostCounterexampleStrict hold, also with        *)
+(* KilledMayRaise = TRUE (whether the cancelled query yields an err output *)
+(* or an exception is not forced by the harness; both end in FAIL).        *)
 (* UNCONSTRAINED: a spawn failure (Popen raising) is not among the         *)
 (* property's solver replies: it is modelled for potential-violation       *)
 (* queries (-> err), never scripted for confirmation queries, and any      *)
@@ -73,7 +74,9 @@ CONSTANTS
                      \*       without interleaving (fewer schedules for scenario generation)
     MutPrecedence,   \* mutant (code before 78a52f5): TIMEOUT tested before stuck paths
     MutNoCatch,      \* mutant (code before a19e257): ShutdownError of the confirmation query escapes run_test
-    KilledMayRaise   \* a confirmation query cancelled in flight may raise OSError out of run_test (not forced)
+    MutKilledEscapes,\* mutant (code before e7511fd): the OSError of a confirmation query cancelled in flight escapes
+    KilledMayRaise   \* a confirmation query cancelled in flight by the early-exit shutdown ends either with an err
+                     \* output (path kept) or with an OSError (loop left); which one is not forced by the harness
 
 ViolKinds  == {"panic", "failflag"}
 SatKinds   == {"sat_valid", "sat_abstract"}
@@ -219,7 +222,10 @@ StuckFinish ==
           /\ i' = i + 1 /\ mpc' = "loop" /\ raised' = raised
           /\ Log(Ev("SF", i, "killed"))
        \/ /\ shutdown /\ KilledMayRaise
-          /\ stuck' = stuck /\ i' = i /\ mpc' = "raised" /\ raised' = TRUE
+          \* the OSError of the cancelled query: `except Exception: if not executor.is_shutdown(): raise; break`
+          \* (since e7511fd); before, only ShutdownError was caught and the OSError escaped run_test
+          /\ stuck' = stuck /\ i' = i
+          /\ IF MutKilledEscapes THEN mpc' = "raised" /\ raised' = TRUE ELSE mpc' = "join" /\ raised' = raised
           /\ Log(Ev("SF", i, "killed-raise"))
     /\ UNCHANGED <<arms, fl, prev, qs, shutdown, sharedcore, outputs, normal, code, pexit, lock>>
 
@@ -446,8 +452,8 @@ VerdictIsPrecedence == Done => ClassOf(code) \in Acceptable(arms)
 \* fully literal reading (violated only by: no path succeeded + a timeout -> TIMEOUT, which the text does not label)
 VerdictIsPrecedenceStrict == Done => ClassOf(code) = Required(arms)
 
-\* the one residual behaviour that is modelled but not forced: see KilledMayRaise
-DevKilledRaise == KilledMayRaise /\ raised /\ fl.early /\ shutdown /\ code = 5
+\* (no deviation is known any more: kept as names of the invariants used by the generation configs)
+DevKilledRaise == FALSE
 VerdictModuloKnown == Done => (ClassOf(code) \in Acceptable(arms) \/ DevKilledRaise)
 
 \* the verdict is a function of the assignment: every schedule agrees with the sequential one
